@@ -26,6 +26,11 @@ P = {
          "hand-off sends are non-blocking with counted drops and a fixed worker pool, every blocking wait in the pipeline includes the stop signal, lock order is acyclic and nothing blocking runs under the registration lock except the reviewed Redis publish. "
          "These are necessary conditions for race-freedom, announce-once, non-stalling overload and bounded shutdown; serializability and lost updates are not decided.",
          "4/C09"),
+ "C12": (True, "must-alias (must-equal set) dataflow for the response object, must-pass/guard dominance, who-may-read, loop-exit shape rules (go/ssa)",
+         "Decides: client-supplied response cleared on every path into processing; the forwarded wrapper is rebuilt from a fresh object with signature fields only from the registrar's own Marshal/Sign; at every successful return the pointer handed to the client is provably the object attached to the forwarded wrapper (must-equal analysis with Override modelled as havoc); "
+         "parameter overrides gated by the client's flag on registrar and station; the station applies the response's port and the address of its own family; each weighted override loop exits at its first match; exclusions precede any address override. "
+         "Object identity and gating hold for all inputs/configurations; equality after protobuf serialisation and the random-address arithmetic are not decided.",
+         "4/C12"),
  "C13": (True, "lockset analysis (may/must) + dominance on go/ssa",
          "Decides on all paths: no registrar mutex is re-acquired while possibly held (the RWMutex reader re-entrancy deadlock), "
          "one selector snapshot per request, every access to the selector under its mutex, reload parses outside the lock, stores only on success, all locks released. "
